@@ -482,8 +482,8 @@ func runC20(cs CaseSpec) *CaseResult {
 func init() {
 	register(&PropDef{
 		ID: "C20", Level: "exploration", Engine: "live",
-		Rule: "one case = ~60 rounds through a real proxy pair (in-process InmemProxy, or the two socket proxies over loopback with a harness TCP forwarder in between): a generated block (nil/empty/binary/1 MB transactions, internal transactions, signature map, arbitrary hashes and indexes) is committed and the application-side handler's view is compared with what Babble passed (body hash, payload bytes, signature map); a scripted commit response (nil/empty/large state hash, receipts) is compared on the way back; handler errors must surface as errors; sequences of tagged transactions are submitted with the caller overwriting its buffer after each call and must arrive byte-identical and in order; snapshot and restore bytes are compared; in fault cases the forwarder cuts the connection after a random number of bytes in either direction: the call must then fail or be faithful (handler run at most 3 times) and an acknowledged submission must have been delivered; distinct by (seed,index,mode)",
-		Assumptions: []string{"a transaction may be delivered more than once when a connection is cut after delivery and the client retries (not judged)", "waiting for submitted transactions uses a wall-clock watchdog of 5 s; expiry with fewer transactions than acknowledged is a violation only because every acknowledged call has returned"},
+		Rule:          "one case = ~60 rounds through a real proxy pair (in-process InmemProxy, or the two socket proxies over loopback with a harness TCP forwarder in between): a generated block (nil/empty/binary/1 MB transactions, internal transactions, signature map, arbitrary hashes and indexes) is committed and the application-side handler's view is compared with what Babble passed (body hash, payload bytes, signature map); a scripted commit response (nil/empty/large state hash, receipts) is compared on the way back; handler errors must surface as errors; sequences of tagged transactions are submitted with the caller overwriting its buffer after each call and must arrive byte-identical and in order; snapshot and restore bytes are compared; in fault cases the forwarder cuts the connection after a random number of bytes in either direction: the call must then fail or be faithful (handler run at most 3 times) and an acknowledged submission must have been delivered; distinct by (seed,index,mode)",
+		Assumptions:   []string{"a transaction may be delivered more than once when a connection is cut after delivery and the client retries (not judged)", "waiting for submitted transactions uses a wall-clock watchdog of 5 s; expiry with fewer transactions than acknowledged is a violation only because every acknowledged call has returned"},
 		MinNontrivial: 6,
 		Cases: func(tier string, seed int64) []CaseSpec {
 			count := 16
